@@ -56,6 +56,8 @@ func (cx *Ctx) callChainOf(v ssa.Value) string {
 
 func checkC04(cx *Ctx, r *Report) {
 	w, fx := cx.W, cx.Fx
+	cx.checkSigningContextMethod(r)
+	cx.checkKeyDescriptorCertificate(r)
 	cx.checkRecoverReports(r, cx.handlerScope())
 	cx.checkNoIndentedEncoding(r)
 	// storage is asked with the request's context (which carries the issuer / tenant in effect): keys, providers and
